@@ -150,7 +150,7 @@ COMP_KEYS = ["port", "host", "opts", "components", "x.y"]
 
 
 def _scalar(d: D) -> Any:
-    return d.pick([0, 1, 5, -2, True, False, None, "s", "5", "true", "a b", "", 1.5])
+    return d.pick([0, 1, 5, -2, True, False, None, "s", "5", "true", "a b", "", 1.5, "a=b", "x=1=2"])  # (values may contain "=")
 
 
 def _val(d: D, depth: int, tags: bool, case: dict) -> Any:
